@@ -13,7 +13,7 @@ EXTENDS FitLawsOps, TLC, Json
 
 CONSTANTS NSet,      \* sample sizes
           CSet,      \* indices into ScaleFactors (filtered by the domain InRange)
-          Kinds,     \* start kinds: "default", "user"
+          Kinds,     \* start kinds: "default", "user" (near), "far" (an order of magnitude off)
           Reps,      \* replicates (independent data draws)
           Dev,       \* "none" | "start" | "swap" | "recipinv" | "logasscale"
           SharedKw,  \* TRUE = deviation: the scipy fit keywords live in a class-level dict that
@@ -75,7 +75,10 @@ Init ==
     /\ IF Scalable(fam)
        THEN c \in {x \in {ScaleFactors[k] : k \in CSet} : InRange(Classes(fam)[ci].scale, x[1], x[2])}
        ELSE c = <<1, 1>>
-    /\ p0 = IF kind = "default" THEN Defaults(fam) ELSE UserStart(fam, Classes(fam)[ci].theta)
+    /\ (kind = "far" => n = 500)                   \* the far start is explored at one sample size
+    /\ p0 = CASE kind = "default" -> Defaults(fam)
+              [] kind = "user" -> UserStart(fam, Classes(fam)[ci].theta)
+              [] kind = "far" -> FarStart(fam, Classes(fam)[ci].theta)
     /\ p1 = <<>> /\ p2 = <<>> /\ p3 = <<>>
     /\ IF KFixAll THEN kfix \in {0} \cup FixIdx(fam)
        ELSE LET S == FixIdx(fam)
